@@ -576,6 +576,21 @@ def oracle_normals(ops, impl):
                 continue
             if allowed and dot(a, b) < TOL - SL:
                 bad.append((i, 'swap allowed across a crease: n0.n1 = %.17g < 1-1e-8' % dot(a, b)))
+            if allowed:
+                # the two triangles after the swap: (n0,n3,n2) and (n1,n2,n3), n2 opposite the directed edge n0->n1
+                n2 = n3 = None
+                for t in shared:
+                    for k in range(3):
+                        if t[k] == n0 and t[(k + 1) % 3] == n1:
+                            n2 = t[(k + 2) % 3]
+                        if t[k] == n1 and t[(k + 1) % 3] == n0:
+                            n3 = t[(k + 2) % 3]
+                if n2 is not None and n3 is not None:
+                    c, e = tri_unit_normal(pts, [n0, n3, n2]), tri_unit_normal(pts, [n1, n2, n3])
+                    if c is None or e is None or dot(c, e) < TOL - SL:
+                        bad.append((i, 'swap allowed although the two new triangles do not share a normal'))
+                    elif dot(a, c) < 0:
+                        bad.append((i, 'swap allowed although it flips the surface'))
     return bad
 
 
